@@ -494,6 +494,14 @@ def strip_ensures(contract: str) -> str:
     return "\n".join(out)
 
 
+def spec_rename(unit: dict, sf: str, text: str) -> str:
+    """"spec_renames": {"<spec or contract file as listed>": {"old": "new"}} — whole-word renaming of ghost names in a
+    BORROWED spec/contract file, for units that combine two spec packs defining the same name (e.g. `cur_owner`)"""
+    for a, b in unit.get("spec_renames", {}).get(sf, {}).items():
+        text = re.sub(r"\b%s\b" % re.escape(a), b, text)
+    return text
+
+
 class Assembled:
     def __init__(self):
         self.text = ""
@@ -527,7 +535,7 @@ def assemble(unit: dict, scratch: str, passname="A") -> Assembled:
     specs = {}
     for sf in unit.get("contracts", []):
         p = os.path.join(unit["dir"], sf)
-        specs.update(parse_vspec(open(p).read(), p))
+        specs.update(parse_vspec(spec_rename(unit, sf, open(p).read()), p))
     fn_by_key = {f["key"]: f for f in tr["fns"]}
     # "rename_types": {"Map": "SdkMap"} — an SDK type whose name collides with a vstd type is renamed in the
     # generated types and the extracted functions (never in model or spec files)
@@ -581,7 +589,7 @@ def assemble(unit: dict, scratch: str, passname="A") -> Assembled:
     spec_region_start = sum(p.count("\n") + 1 for p in parts) + 1
     for sf in unit.get("spec_files", []):
         p = os.path.join(unit["dir"], sf) if not sf.startswith("common/") else os.path.join(VERIF, "specs", sf)
-        parts.append(f"// ---- {sf} ----\n" + open(p).read())
+        parts.append(f"// ---- {sf} ----\n" + spec_rename(unit, sf, open(p).read()))
     text = "\n".join(parts) + "\n"
     spec_region_end = text.count("\n")
     asm = Assembled()
